@@ -143,6 +143,10 @@ func TestVerifC02(t *testing.T) {
 			c.Chunked = rng.intn(3) == 0
 			c.Expect = rng.intn(10) == 0 && c.BodyLen > 0
 		}
+		if hasBody && i%4 == 1 {
+			// body types that net/http's form parsing would consume if anybody on the way asked for a form value
+			c.Fields = append(c.Fields, [2]string{"Content-Type", []string{"application/x-www-form-urlencoded", "multipart/form-data; boundary=verifboundary", "application/x-www-form-urlencoded; charset=UTF-8", "application/json"}[(i/4)%4]})
+		}
 		var raw bytes.Buffer
 		fmt.Fprintf(&raw, "%s %s HTTP/1.1\r\nHost: %s\r\n", c.Method, c.Target, c.Host)
 		for _, f := range c.Fields {
